@@ -2865,7 +2865,7 @@ status_t MessageField :: ReplaceFlatCountableDataItem(uint32 index, muscle::Ref<
    switch(_state)
    {
       case FIELD_STATE_INLINE:
-         return SetInlineItemAsRefCountableRef(fcRef.GetRefCountableRef());
+         return (index == 0) ? SetInlineItemAsRefCountableRef(fcRef.GetRefCountableRef()) : B_DATA_NOT_FOUND;  // same contract as SingleReplaceDataItem(): the inline item is item 0 only
 
       case FIELD_STATE_ARRAY:
       {
